@@ -179,6 +179,28 @@ def analysis_failing():
 
 
 
+def dup_named():
+    """two contracts with the same short name in different source files (their block names coincide): the first one has a block on which
+    the analysis raises, the second one an optimizable block at the same position.  Returns the document and, per contract, the document
+    that holds this contract alone (the reference: a failure costs at most that block, and nothing in another contract)"""
+    it = lambda n, v=None, **kw: dict({"begin": 1, "end": 2, "name": n, "source": 0}, **({"value": v} if v is not None else {}), **kw)
+    bad = [it("tag", "100"), it("JUMPDEST"), it("PUSH", "FA"), it("PUSH", "21"), it("MSTORE"),
+           it("PUSH", "8E7D1E3A35DAD0AE92E6C0FE76CA091F90735F1E10675861FF6B98D06AC2BA47"), it("NOT"), it("PUSH", "FF"), it("DUP2"), it("PUSH", "60"),
+           it("ADD"), it("MSTORE"), it("DUP1"), it("MLOAD"), it("REVERT")]
+    bad2 = [it("tag", "100"), it("JUMPDEST"), it("PUSH", "1"), it("MSIZE"), it("ADD"), it("PUSH", "0"), it("ADD"), it("PUSH", "40"), it("MSTORE"), it("STOP")]
+    good = [it("tag", "1"), it("JUMPDEST"), it("PUSH", "1"), it("PUSH", "0"), it("ADD"), it("DUP2"), it("PUSH", "0"), it("ADD"), it("ADD"),
+            it("PUSH [tag]", "100"), it("JUMP", None, jumpType="[in]")]
+    fine = [it("tag", "100"), it("JUMPDEST"), it("PUSH", "1"), it("PUSH", "2"), it("ADD"), it("PUSH", "0"), it("ADD"), it("PUSH", "40"), it("MSTORE"), it("STOP")]
+    out = []
+    for k, b in enumerate((bad, bad2)):
+        mk = lambda blk: {"asm": {".code": [dict(i) for i in good + blk], ".data": {"0": {".auxdata": "a1", ".code": [dict(i) for i in blk + [it("tag", "2"), it("JUMPDEST")] + good[2:]]}}}}
+        cs = {"lib/a.sol:Token": mk(b), "b.sol:Token": mk(fine), "c/d.sol:Token": mk(fine)}
+        doc = ("dup%d.json_solc" % k, {"contracts": cs, "version": "0.8.15+commit.e14f2714"})
+        singles = [(cn, ("dup%d_%d.json_solc" % (k, j), {"contracts": {cn: cs[cn]}, "version": "0.8.15+commit.e14f2714"})) for j, cn in enumerate(cs)]
+        out.append((doc, singles))
+    return out
+
+
 def multi_section():
     """a contract whose `.data` holds two code-bearing sub-assemblies ("0" runtime, "1" the creation code of a contract deployed with `new`)
     and a second contract with an empty `.data`: every section keeps its own instruction stream"""
